@@ -145,8 +145,9 @@ def written_coq(frames):
 
 
 class Scenario(object):
-    def __init__(self, nchan, rpc_timeout=1):
-        self.rt, self.br, self.conn = vconn.open_connection()
+    def __init__(self, nchan, rpc_timeout=1, poller=None):
+        self.rt, self.br, self.conn = vconn.open_connection(
+            **({'poller': poller} if poller else {}))
         self.chans = {}
         for _ in range(nchan):
             ch = self.conn.channel(rpc_timeout=rpc_timeout)
@@ -190,7 +191,9 @@ class Scenario(object):
                     self.br.sock.send_script = broken
                 elif pf == 'NFaultPoll':
                     import errno
-                    self.rt.poll_error = OSError(errno.EBADF, 'Bad file descriptor')
+                    # num: bit 0 = the connection uses the select() poller, the rest picks the errno
+                    code = [errno.EBADF, errno.EINVAL, errno.ENOMEM][(fr[1] >> 1) % 3]
+                    self.rt.poll_error = OSError(code, 'poll failed')
                     vrt.pump_all()
                 else:
                     self.br.deliver(c, pf)
@@ -350,7 +353,9 @@ def msgs_coq(got):
 
 
 def run_scenario(nchan, steps, results=None):
-    sc = Scenario(nchan)
+    select = any(fr[0] == 'NFaultPoll' and fr[1] & 1
+                 for st in steps for tick in st[2] for _, fr in tick)
+    sc = Scenario(nchan, poller='select' if select else None)
     obs = []
     for st in steps:
         o, r = sc.run_step(st)
